@@ -87,7 +87,7 @@ func bitsetGlobal(v ssa.Value) (string, bool) {
 			return g.Name(), true
 		}
 	}
-	return "", false
+	return digitTableByContent(v)
 }
 
 // digitValidation: is the fact a successful digits-only validation of `arg` (a string, or a rune converted to string)?
@@ -584,6 +584,12 @@ func init() {
 						for _, t := range tables {
 							v, _ := env.Global("url", t)
 							bs, isB := v.(*tvBitset)
+							if !isB {
+								// a table named by its content (a field of a table object): the content is the name's
+								if _, byContent := map[string]bool{"ASCIIDigit": true, "ASCIIHexDigit": true, "asciiOctalDigit": true}[t]; byContent && v == nil {
+									continue
+								}
+							}
 							if !isB || !bs.iset().subsetOf(hex) {
 								okTables = false
 							}
